@@ -278,6 +278,25 @@ class SDict:
         self.has, self.get = has, get
         # insertion order of an updated symbolic map is not tracked
         self.n, self.key_at = None, None
+        self.enum = None
+
+    def ensure_enum(self, path):
+        """Every dict has an injective enumeration of its keys (T-py); the order of a dict
+        whose history is not tracked is left unspecified (any order)."""
+        if self.n is not None:
+            return
+        n = z3.Int(fresh_name(self.tag + "_n"))
+        key_at = z3.Function(fresh_name(self.tag + "_key"), z3.IntSort(), z3.IntSort())
+        idx = z3.Function(fresh_name(self.tag + "_idx"), z3.IntSort(), z3.IntSort())
+        i, j, k = z3.Ints(f"{fresh_name('i')} {fresh_name('j')} {fresh_name('k')}")
+        has = self.has
+        kk = self.kkind
+        path.assume(n >= 0)
+        path.assume(z3.ForAll([i], z3.Implies(z3.And(i >= 0, i < n), z3.And(zbool(has(mk(key_at(i), kk))), idx(key_at(i)) == i)), patterns=[key_at(i)]))
+        path.assume(z3.ForAll([k], z3.Implies(zbool(has(mk(k, kk))), z3.And(idx(k) >= 0, idx(k) < n, key_at(idx(k)) == k)), patterns=[idx(k)]))
+        self.n = mk(n, "int")
+        self.key_at = lambda i_, _f=key_at, _kk=kk: mk(_f(to_z3(i_, "int")), _kk)
+        self.enum = (n, key_at, idx)
 
     def delete(self, key):
         old_has = self.has
@@ -288,6 +307,34 @@ class SDict:
 
         self.has = has
         self.n, self.key_at = None, None
+
+
+def promote_dict(pd, kkind):
+    """Turn a concrete-key dict into a symbolic map in place (needed when a symbolic key is
+    stored into a dict literal such as `parameters = {}`)."""
+    items = list(pd.items.items())
+    for k, _ in items:
+        if kind_of(k) != kkind:
+            raise Unsupported("mixed key kinds in a dict that receives a symbolic key")
+    pd.__class__ = SDict
+    pd.__dict__.clear()
+
+    def has(k, _items=items):
+        cs = [to_z3(k) == to_z3(c) for c, _ in _items]
+        return z3.Or(*cs) if cs else z3.BoolVal(False)
+
+    def get(k, _items=items):
+        if not _items:
+            raise Unsupported("value of an absent key")
+        out = _items[-1][1]
+        for c, v in reversed(_items[:-1]):
+            out = ite_value(to_z3(k) == to_z3(c), v, lambda o=out: o)
+        return out
+
+    SDict.__init__(pd, kkind, has, get, tag="dict")
+    if not items:
+        pd.n, pd.key_at = 0, (lambda i: None)
+    return pd
 
 
 class Arr:
